@@ -19,4 +19,6 @@ def run(ctx):
                 r.rule += "@" + fs
         out += res
     out.append(D.dedup_key_rule(ctx.syn, "C13"))
+    from rules import templates as T
+    out.append(T.generated_state_rule(ctx.syn, "C13", "C13.R7"))
     return out
